@@ -1,4 +1,4 @@
-CONSTANTS Callers = {a, b} Burst = 1 MaxRemoves = 2 RetryOnMiss = FALSE
+CONSTANTS Callers = {a, b} Burst = 1 MaxRemoves = 2 RetryOnMiss = FALSE MaxCleanups = 0 EraseRechecks = FALSE
 SPECIFICATION Spec
 INVARIANT NeverOverdrawn
 INVARIANT NoSpuriousRefusal
